@@ -58,7 +58,8 @@ def gen(rng, tier):
         if rng.random() < 0.15:
             sub = True
             ab = ['A', 'B']
-    unpack = rng.choice([False, False, True, ['pid', 'tagged'], ['lagr_pos', 'lagr_idx', 'density'], ['pid', 'lagr_idx']])
+    unpack = rng.choice([False, False, True, ['pid', 'tagged'], ['lagr_pos', 'lagr_idx', 'density'], ['pid', 'lagr_idx'],
+                         'density', 'pid'])
     if lc:
         ab = ['A']
         cols = rng.choice([['pos', 'vel', 'pid'], ['pid'], ['pos'], ['rv']])
@@ -67,7 +68,8 @@ def gen(rng, tier):
             'path': {'kind': kind, 'order': order, 'slash': rng.random() < 0.3, 'as_path': rng.random() < 0.5},
             'cleaned': bool(world['cleaned'] and rng.random() < 0.75) or lc, 'subsamples': sub, 'AB': ab,
             'unpack_bits': unpack, 'passthrough': passthrough,
-            'fields': 'all' if passthrough else rng.choice(['DEFAULT_FIELDS', 'all', 'all'])}
+            'fields': 'all' if passthrough else rng.choice(['DEFAULT_FIELDS', 'all', 'all']),
+            'explicit_cleandir': rng.random() < 0.25, 'zdir_as_path': rng.random() < 0.5}
 
 
 def run(case):
@@ -84,6 +86,18 @@ def run(case):
         rows = W.expected_particles(world, order, case['cleaned'] and not lc, case['AB'])
         kw = dict(cleaned=case['cleaned'], subsamples=copy.deepcopy(case['subsamples']), unpack_bits=case['unpack_bits'],
                   passthrough=case['passthrough'], fields=case['fields'])
+        if case.get('explicit_cleandir') and case['cleaned'] and not lc:
+            import os
+            chi = W.clean_dirs(world, root)[1]
+            cd = chi
+            while os.path.basename(cd) != 'cleaning':
+                cd = os.path.dirname(cd)
+            import pathlib as _pl
+            kw['cleandir'] = _pl.Path(cd)     # (a plain str crashes in _setup_file_paths: outside C01, noted in DESIGN 6)
+            bump(out['probes'], 'explicit-cleandir')
+        if case.get('zdir_as_path') and isinstance(arg, str):
+            import pathlib
+            arg = pathlib.Path(arg)
         tabs = {}
         for poison in ('A', 'B'):
             k2 = dict(knobs, poison=poison)
